@@ -952,9 +952,11 @@ theorem facts_pack :
 
 /-- **the table of the real `MessageSession`** on a fake transport: every sequence of at most
     three items of the kinds valid / bad checksum / bad magic / oversize (and four longer ones),
-    followed by a valid message, with the transport reporting the loss at once (`g = 0`), 2.5 ms
-    after `close()` (`g = 2`) or not at all (`g = gNever`): `errors`, "close requested" and the
-    messages that reached `handle_message` are `sessRunG g` of the framer's outcomes.  (This
+    followed by a valid message, with the transport reporting the loss at once (`g = gSoon`),
+    2.5 ms after `close()` (`g = gLate`) or not at all (`g = gNever`) - `gSoon`, `gLate` being
+    the number of further magic/size errors a probe session counted under that timing -:
+    `errors`, "close requested" and the messages that reached `handle_message` are `sessRunG g`
+    of the framer's outcomes.  (This
     replaces reading the `except` ladder from the source: the handlers are run, with the
     exception objects the real framer raises.) -/
 theorem facts_session :
